@@ -64,24 +64,24 @@ theorem null_then_and (nok : Query.NumOK) (p : Query.Path) (hp : p.numsOK nok) (
   Query.parse_canonical nok (.and (.cmp .eq p .null) B) (show (Query.Expr.cmp .eq p .null).OK nok ∧ B.OK nok from ⟨⟨hp, by intro lit h; cases h⟩, hB⟩) fuel hf
 
 /-- **the same on text**: any spelling (white space between tokens, or none where two tokens cannot run
-    together) of the canonical tokens of an expression followed
+    together; either kind of quotes) of the canonical tokens of an expression followed
     by a token that cannot continue it — a literal, a name, a lower-case `and`, a closing bracket, a
     second expression — and by anything else lexable, is refused with "unexpected token after expression" -/
 theorem text_then_junk_is_rejected (nok : Query.NumOK) (e : Query.Expr) (he : e.OK nok) (j : Query.Token)
     (J : List Query.Token) (hj : Query.isComparisonOperator j.type = false) (hand : j.type ≠ .and) (hor : j.type ≠ .or)
-    (heof : j.type ≠ .eof) (items : List (Bytes × Query.Token)) (trail : Bytes)
-    (htoks : items.map (·.2) = e.toks 0 ++ j :: J) (hok : Query.SpellOK items) (htrail : Query.isWsList trail) :
-    Query.parse (Query.ofList (Query.spell items ++ trail)) nok = .err "unexpected token after expression" := by
-  rw [Query.parse_spelled items trail hok htrail nok, htoks]
+    (heof : j.type ≠ .eof) (sq : Query.Token → Bool) (items : List (Bytes × Query.Token)) (trail : Bytes)
+    (htoks : items.map (·.2) = e.toks 0 ++ j :: J) (hok : Query.SpellOK sq items) (htrail : Query.isWsList trail) :
+    Query.parse (Query.ofList (Query.spell sq items ++ trail)) nok = .err "unexpected token after expression" := by
+  rw [Query.parse_spelled sq items trail hok htrail nok, htoks]
   apply Query.trailing_rejected nok e he j J hj hand hor heof
   have hlex : ∀ t ∈ e.toks 0, Query.Lexable t := by
     intro t ht
     have hm : t ∈ items.map (·.2) := by rw [htoks]; simp [ht]
     obtain ⟨x, hx, rfl⟩ := List.mem_map.mp hm
     obtain ⟨a, b, e'⟩ := List.append_of_mem hx
-    exact (hok.1 a x.1 x.2 b e').2
+    exact (hok.1 a x.1 x.2 b e').2.1
   have h1 := e.need_le_text 0 hlex
-  have h2 := Query.textLen_le_spell items
+  have h2 := Query.textLen_le_spell sq items
   rw [htoks, Query.textLen_append] at h2
   simp only [Query.parseFuel, List.length_append]
   omega
